@@ -83,7 +83,7 @@ def run(chk):
     chk.rule("C17.R1", "candidates: own samplers, requested counts; real samplers accept the keys of the step (dim 1 and 2)", floor=5)
     chk.rule("C17.R2", "added points = candidates with the `selected` largest squared residuals of the current network", floor=4)
     chk.rule("C17.R3", "new points written at start + J * selected of the store's own family (first inactive slots)", floor=4)
-    thorough = chk.tier == "thorough"
+    thorough = chk.full
     J = K('J')
 
     def setup(kind, **kw):
